@@ -145,8 +145,15 @@ def check_case(case):
             if k <= T and result_tuple(sol) != R:
                 fail("returned-result", {"got": result_tuple(sol), "expected": R}, comp)
             r1 = result_tuple(sol)
+            if sol.numberOfGlobalTrials != len(s2):
+                fail("reported-global-trials", {"reported": sol.numberOfGlobalTrials, "global_evaluations": len(s2)}, comp)
             sol2 = run.solve()
-            if len(run.glog()) != len(s2) or result_tuple(sol2) != r1:
+            r2 = result_tuple(sol2)
+            if base.get("refine"):
+                # a second Solve refines again, starting from the refined point: point and value may improve further, the global
+                # search (trial count, accuracy) must not move
+                r1, r2 = r1[2:], r2[2:]
+            if len(run.glog()) != len(s2) or r2 != r1:
                 fail("second-solve-no-trials", {"calls_before": len(s2), "calls_after": len(run.glog()),
                                                 "result_before": r1, "result_after": result_tuple(sol2)}, comp)
             if run.trouble():
@@ -165,7 +172,7 @@ def gen(r, tier):
         case["compositions"] = [[r.choice([1, 2, 5, 9, 40]) for _ in range(r.randint(1, 12))] for _ in range(8)]
         return case
     case = oc.gen_case(r, lim=r.choice([1, 2, 3, 4, 5, 6, 8, 12, 17, 40, 80, 150]),
-                       eps=r.choice([1.5, 1.0, 0.5, 0.5, 0.3, 0.2, 0.1, 0.05, 0.02, 0.01, 1e-3]))
+                       eps=r.choice([1.5, 1.0, 0.5, 0.5, 0.3, 0.2, 0.1, 0.05, 0.02, 0.01, 1e-3]), refine=r.random() < 0.15)
     comps = []
     if tier == "thorough" and r.random() < 0.5:
         for k in range(0, 8):
